@@ -38,8 +38,37 @@ Theorem C16_no_startup_exception : forall c o scripts sched,
 Proof. intros c o scripts sched H3 Hg. exact (no_startup_exception c o H3 Hg scripts sched). Qed.
 Print Assumptions C16_no_startup_exception.
 
+(* Every call is answered: close-free scripts (background prepare() requests and calls from any
+   number of threads), repaired run(), launches that succeed.  Under every schedule no operation
+   ever ends with an exception, each thread has received exactly as many replies as calls it has
+   completed (all of them once its script has run to its end), at most one server is launched,
+   and exactly one as soon as any call has been answered. *)
+Theorem C16_calls_answered : forall c o scripts sched,
+  fix_f3 c = true -> good_oracle o -> (forall l, In l scripts -> ~ In Close l) ->
+  let s := run c o sched (init scripts) in
+  (forall i, t_exns (clients s i) = []) /\
+  (forall i, t_answers (clients s i) + calls (t_script (clients s i)) = calls (nth i scripts [])) /\
+  (forall i, t_script (clients s i) = [] -> t_answers (clients s i) = calls (nth i scripts [])) /\
+  launches (sh s) <= 1 /\
+  ((exists i, 0 < t_answers (clients s i)) -> launches (sh s) = 1).
+Proof. intros c o scripts sched H3 Hg Hcf. exact (closefree_all_answered c o scripts H3 Hg Hcf sched). Qed.
+Print Assumptions C16_calls_answered.
+
+(* Non-vacuity: prepare + three first calls, a refused connect that is retried, round robin. *)
+Example C16_calls_answered_example :
+  let o := mk_oracle [] [CRetry] in
+  let s := run cfg_fixed o (flat_map (fun _ => [Cl 0; Cl 1; Cl 2; St 0]) (seq 0 40))
+               (init [[Prepare; Call]; [Call]; [Call; Call]]) in
+  good_oracle o /\ launches (sh s) = 1 /\ starters s 0 = SDone None /\
+  map (fun i => (t_script (clients s i), t_answers (clients s i), t_exns (clients s i))) [0; 1; 2]
+  = [([], 1, []); ([], 1, []); ([], 2, [])].
+Proof.
+  split; [split; intros k; [destruct k; reflexivity|destruct k as [|[|k]]; discriminate]|].
+  vm_compute. repeat split; reflexivity.
+Qed.
+
 (* F3 on the pinned tree: run() tests self.prepare_thread and reads it again to join it; the
-   starter clears it in between (2 threads, 25 scheduled lines) -> the caller unwinds run() with
+   starter clears it in between (2 threads, 19 scheduled lines) -> the caller unwinds run() with
    AttributeError although the launch succeeded. *)
 Definition f3_scripts : list (list op) := [[Prepare]; [Call]].
 Definition f3_schedule : list tid :=
